@@ -604,7 +604,7 @@ def check_C11(rep):
     for m in ((2,) if quick else (2, 3)):
         b = dict(MaxPkt=m, MaxStream=14, MaxLasts=5, MaxLost=4, MaxFlush=3)
         behs = tlc.simulate(SPEC_DIR, "MCEpIn", tlc.render_cfg(_cfg("MCEpIn_sim.cfg.tmpl"), b),
-                            num=50 if quick else 400, depth=70, seed=rep.seed * 11 + m)
+                            num=36 if quick else 400, depth=60 if quick else 70, seed=rep.seed * 11 + m)
         for i, beh in enumerate(behs):
             jobs.append({"eps": in_eps(m), "script": beh_to_script_in(beh, rep.rng), "seed": rep.seed + i,
                          "meta": {"gen": "tlc-simulate", "max": m}})
@@ -1067,6 +1067,23 @@ class C14Script:
         self.ops.append(("idle", n + 3))
         self.otog ^= 1
 
+    def pings(self, k, nak=False):
+        """k PING transactions in a row on OUT ep1: ACKed (consumer ready, buffer empty) or NAKed (consumer stalled and
+        less than MaxPkt free; the buffer is drained again afterwards).  A PING never moves the data toggle."""
+        if k <= 0:
+            return
+        if nak:
+            self.ops.append(("cons", 1, ("stall",)))
+            left = self.d - self.m + 1
+            while left > 0:
+                n = min(self.m, left)
+                self.ops.append(("out", 1, self.otog, [b for b, _ in self.bytes(n)], True))
+                self.otog ^= 1
+                left -= n
+        self.ops += [("ping", 1)] * k
+        if nak:
+            self.ops += [("cons", 1, ("ready",)), ("idle", self.d + 6)]
+
     def out_situation(self, s):
         m = self.m
         if s == "one_accepted":
@@ -1114,9 +1131,40 @@ def gen_c14_structured(m, d, seed):
                 else:
                     s.out_situation(so)
                     s.in_situation(si)
+                kb, ka = len(out) % 4, (len(out) // 4) % 3          # PINGs before / right after the request
+                s.pings(kb)
                 s.clear(tgt)
+                s.pings(ka)
                 s.follow_up()
-                out.append((s.ops, {"gen": "structured", "in": si, "out": so, "clear": tgt}))
+                out.append((s.ops, {"gen": "structured", "in": si, "out": so, "clear": tgt, "pings": (kb, ka)}))
+    return out
+
+
+def gen_c14_ping(m, d, seed, with_clear=True):
+    """1..3 PING transactions in a row (all ACKed / all NAKed) between data packets and right after a completed
+    CLEAR_FEATURE(ENDPOINT_HALT): the next DATA0/DATA1 packet must be accepted or skipped exactly as if the PINGs had not
+    happened (observable: its handshake, its delivery, the end-of-trace drain)."""
+    out = []
+    for tgt in ((None, (1, "out"), (1, "in"), (2, "out")) if with_clear else (None,)):
+        for k in (1, 2, 3):
+            for nak in (False, True):
+                for pos in ("between", "after_clear"):
+                    if tgt is None and pos == "after_clear":
+                        continue
+                    for first in (1, 2):                 # expected toggle DATA1 / DATA0 when the PINGs happen
+                        s = C14Script(m, d, seed + len(out))
+                        for _ in range(first):
+                            s.out_packet(1)
+                        if pos == "between":
+                            s.pings(k, nak)
+                        s.clear(tgt)
+                        if pos == "after_clear":
+                            s.pings(k, nak)
+                        s.out_packet(m)
+                        s.pings(1)
+                        s.out_packet(1)
+                        s.follow_up()
+                        out.append((s.ops, {"gen": "ping", "clear": tgt, "k": k, "nak": nak, "pos": pos, "first": first}))
     return out
 
 
@@ -1170,12 +1218,16 @@ def gen_c14_random(rng, m, d, steps):
             s.ops += [("feed", 1, s.bytes(n, last=rng.random() < 0.8)), ("idle", rng.randint(0, n + 3))]
         elif x < 0.6:
             s.ops.append(("in", 1, rng.choice(["ack", "ack", "ack", "lost", "bad"])))
-        elif x < 0.8:
+        elif x < 0.75:
             s.out_packet(rng.choice([1, m, rng.randint(1, m)]))
             if rng.random() < 0.2:       # host missed the ACK: repeats the previous toggle
                 s.ops.append(("out", 1, s.otog ^ 1, [1], True))
+        elif x < 0.85:
+            s.pings(rng.randint(1, 3), nak=rng.random() < 0.3)
         else:
             s.clear(rng.choice(CLEAR_TARGETS[:5]))
+            if rng.random() < 0.4:
+                s.pings(rng.randint(1, 3))
     s.follow_up()
     return s.ops
 
@@ -1185,7 +1237,8 @@ def check_C14(rep):
     rep.rule = ("real-device events validated against EpDev (CLEAR_FEATURE decoded by the spec); non-trivial = a data "
                 "PID sent / a handshake decision, distinct by (endpoint, kind, PID, situation)")
     rep.assume("the request takes effect when the host's ACK of the status-stage ZLP reaches the device; one address")
-    rep.assume("OUT traffic stays within the clean class of C13 (consumer ready, packets fit)")
+    rep.assume("OUT traffic stays within the clean class of C13 (packets fit; the consumer is stalled only to get PINGs "
+               "NAKed and is drained again before the next data packet)")
     rep.assume("clean stimuli keep the control transfer contiguous and no stream beat in the cycle the request takes "
                "effect; witness stimuli: (a) a beat completing a packet in exactly that cycle, (b) another endpoint's "
                "IN transaction ACKed between SETUP and status stage")
@@ -1205,6 +1258,13 @@ def check_C14(rep):
             if quick and m == 8 and (meta["clear"] != (1, "in") or meta["shape"] != "full"):
                 continue
             jobs.append({"eps": c14_eps(m, d), "script": ops, "seed": rep.seed, "meta": dict(meta, max=m)})
+    for m, d in ([(4, 7)] if quick else [(2, 3), (4, 7), (8, 15)]):
+        for ops, meta in gen_c14_ping(m, d, rep.seed):
+            jobs.append({"eps": c14_eps(m, d), "script": ops, "seed": rep.seed, "meta": dict(meta, max=m)})
+        for speed in (0, 1):          # packet-layer assembly, link speed pinned to high / full speed (no control endpoint)
+            for ops, meta in gen_c14_ping(m, d, rep.seed, with_clear=False):
+                jobs.append({"eps": c14_eps(m, d), "script": ops, "seed": rep.seed, "speed": speed,
+                             "meta": dict(meta, max=m)})
     for m, d in ([(4, 7)] if quick else [(2, 3), (4, 7), (8, 15)]):
         for ops, meta in gen_c14_interleaved(m, d, rep.seed):
             jobs.append({"eps": c14_eps(m, d), "script": ops, "seed": rep.seed, "meta": dict(meta, max=m)})
@@ -1325,6 +1385,53 @@ def gen_c12(rng, focus, steps):
     return ops
 
 
+def c12_eps(depth1):
+    """the C12 device with another buffer size for the focus OUT endpoint 1 (MaxPkt 4): 2*MaxPkt and MaxPkt+1 make
+    'exactly full' reachable with whole packets in other ways than the default 2*MaxPkt-1"""
+    return [dict(e, depth=depth1) if (e["kind"], e["n"]) == ("out", 1) else e for e in C12_EPS]
+
+
+FOREIGN_AT_FULL = [("out", 2, 1, True), ("out", 2, 3, True), ("out", 5, 1, True), ("out", 5, 8, True), ("out", 9, 2, True),
+                   ("out", 3, 1, True), ("out", 9, 3, False), ("out", 2, 8, True), ("in", 2), ("ping", 2), ("ping", 9),
+                   ("in", 1)]
+
+
+def gen_c12_buffer(depth1):
+    """Focus = stream OUT endpoint 1 with its buffer exactly full / one short of full / MaxPkt-1 short of full and the
+    consumer stalled; at that moment OUT data packets of several lengths go to OTHER endpoints (a second stream OUT,
+    the isochronous OUT, numbers nobody listens to), or other foreign transactions happen; then the consumer drains and
+    the focus endpoint receives its next in-sequence packets.  Variant `still_full`: the focus endpoint's next packet
+    arrives while it is still full (NAK), and is repeated after the drain."""
+    m = 4
+    out = []
+    for fill in sorted({depth1, depth1 - 1, depth1 - m + 1} - {0}):
+        for i, fo in enumerate(FOREIGN_AT_FULL):
+            for still_full in ((False, True) if fill == depth1 and i % 3 == 0 else (False,)):
+                h = OutHost(None, m, depth1, ep=1, clean=True)
+                h.val = 8 * fill + i
+                _prefill(h, fill)
+                k = 1 + (i + fill) % 2
+                for j in range(k):
+                    if fo[0] == "out":
+                        _, ep, ln, ok = fo
+                        h.ops.append(("out", ep, (i + j) & 1, [(17 * i + 3 * x + j) & 0xFF for x in range(ln)], ok, F))
+                    elif fo[0] == "in":
+                        if fo[1] == 2:
+                            h.ops.append(("feed", 2, [(0x40 + i + j, True)], F))
+                            h.ops.append(("idle", 3, F))
+                        h.ops.append(("in", fo[1], "ack", F))
+                    else:
+                        h.ops.append(("ping", fo[1], F))
+                nxt = h.payload(1 if (i + fill) % 3 == 0 else m if (i + fill) % 3 == 1 else 2)
+                if still_full:
+                    h.ops.append(("out", 1, h.tog, nxt, True))
+                h.ops += [("cons", 1, ("ready",)), ("idle", depth1 + 6), ("out", 1, h.tog, nxt, True), ("idle", 6),
+                          ("out", 1, h.tog ^ 1, h.payload(2), True), ("end",)]
+                out.append((h.ops, {"gen": "buffer-full-pair", "depth": depth1, "fill": fill, "foreign": fo,
+                                    "still_full": still_full}))
+    return out
+
+
 BUS_EVENTS = ("tok", "data", "resp", "none", "hs", "nohs")
 
 
@@ -1373,6 +1480,9 @@ def check_C12(rep):
             jobs.append((gen_c12(rep.rng, focus, 5 if quick else 8), focus, {"gen": "random-pair"},
                          rep.rng.randrange(1 << 30)))
     items = run_pairs(rep, C12_EPS, jobs)
+    for depth1 in ((8, 7) if quick else (8, 7, 5, 12)):
+        bjobs = [(ops, "out1", meta, rep.seed) for ops, meta in gen_c12_buffer(depth1)]
+        items += run_pairs(rep, c12_eps(depth1), bjobs)
     nontriv_from(rep, items, "C12")
     for t, meta in items:
         for r in t["steps"]:
